@@ -212,7 +212,12 @@ impl Monitor for M {
                 "<FIBEX><ELEMENTS><PDU ID=\"P\"><BYTE-LENGTH>1</BYTE-LENGTH></PDU><!--> x --><SIGNAL ID=\"S\"><CODING-REF ID-REF=\"C\"/></SIGNAL></ELEMENTS></FIBEX>",
                 "<FIBEX><ELEMENTS><FRAME ID=\"F\"><SHORT-NAME>n</SHORT-NAME><BYTE-LENGTH>1</BYTE-LENGTH></FRAME><!--> x --></ELEMENTS></FIBEX>",
                 "<FIBEX><ELEMENTS><PDU ID=\"P\"><!--> x --><BYTE-LENGTH>1</BYTE-LENGTH></PDU></ELEMENTS></FIBEX>",
-                "<FIBEX><ELEMENTS><CODING ID=\"C\"><CODED-TYPE BASE-DATA-TYPE=\"A_UINT8\"/></CODING><![CDATA[]]><!DOCTYPE><!--></ELEMENTS></FIBEX>", "<FIBEX><![CDATA[]]></FIBEX>", "<FIBEX><!DOCTYPE></FIBEX>", "<FIBEX><!></FIBEX>", "<FIBEX><?></FIBEX>"].iter().enumerate() {
+                "<FIBEX><ELEMENTS><CODING ID=\"C\"><CODED-TYPE BASE-DATA-TYPE=\"A_UINT8\"/></CODING><![CDATA[]]><!DOCTYPE><!--></ELEMENTS></FIBEX>",
+                // the same inside text-valued elements, behind a sibling whose text was read just before
+                "<FIBEX><ELEMENTS><PDU ID=\"P\"><SHORT-NAME>name</SHORT-NAME><DESC><!--> y --></DESC><BYTE-LENGTH>1</BYTE-LENGTH></PDU></ELEMENTS></FIBEX>",
+                "<FIBEX><ELEMENTS><PDU ID=\"P\"><DESC>d</DESC><SHORT-NAME><!--> y --></SHORT-NAME><BYTE-LENGTH><!-->1</BYTE-LENGTH></PDU></ELEMENTS></FIBEX>",
+                "<FIBEX><ELEMENTS><FRAME ID=\"F\"><SHORT-NAME>n</SHORT-NAME><BYTE-LENGTH>1</BYTE-LENGTH><FRAME-TYPE><!--> t --></FRAME-TYPE><MANUFACTURER-EXTENSION><APPLICATION_ID>A</APPLICATION_ID><CONTEXT_ID><!--> c --></CONTEXT_ID><MESSAGE_TYPE><![CDATA[]]></MESSAGE_TYPE><MESSAGE_INFO><!---></MESSAGE_INFO></MANUFACTURER-EXTENSION></FRAME></ELEMENTS></FIBEX>",
+                "<FIBEX><ELEMENTS><PDU ID=\"P\"><BYTE-LENGTH>1</BYTE-LENGTH><SIGNAL-INSTANCES><SIGNAL-INSTANCE ID=\"s\"><SEQUENCE-NUMBER><!--> 1 --></SEQUENCE-NUMBER><SIGNAL-REF ID-REF=\"S_BOOL\"/></SIGNAL-INSTANCE></SIGNAL-INSTANCES><PDU-TYPE><!--></PDU-TYPE></PDU></ELEMENTS></FIBEX>", "<FIBEX><![CDATA[]]></FIBEX>", "<FIBEX><!DOCTYPE></FIBEX>", "<FIBEX><!></FIBEX>", "<FIBEX><?></FIBEX>"].iter().enumerate() {
                 let g = format!("{}/probe{}.xml", dir, k);
                 let _ = std::fs::write(&g, text.as_bytes());
                 ctx.obs("probes.fixed_documents");
@@ -315,7 +320,7 @@ impl Monitor for M {
 
     fn describe(&self, ctx: &Ctx) -> J {
         super::describe(
-            "base documents: generated FIBEX model/layout documents (up to 12 KiB) and, as every 8th document, one of the two repository samples. Even case indices: truncation, EXHAUSTIVE per document (48 chunks of 256 offsets cover every byte offset 0..len of the document, each truncated document is loaded; the undamaged document is loaded too). Odd case indices: 16 damaged variants of a document by deletion of a start tag / end tag / whole element / attribute or its closing quote, 1-3 byte substitutions or insertions from {<,>,quote,&,NUL,FF,/,=,space,apostrophe}, oversized / malformed numbers, invalid UTF-8, BOM / CDATA / unknown entities / DOCTYPE, duplicated regions; 1/8 together with an undamaged file; plus eleven fixed probe documents with degenerate markup ('<!-->', '<!--->', empty CDATA / DOCTYPE / '<!>' / '<?>', also directly behind a PDU / FRAME / CODING element) loaded on every run, plus (1 in 997) nonexistent path, empty path, a directory, an empty file, no paths, NUL in the path. distinct = (damage operator, nesting context of the damage point: top / in PDU / in FRAME / in instance / in signal or coding / in tag / outside root, result class); all non-trivial",
+            "base documents: generated FIBEX model/layout documents (up to 12 KiB) and, as every 8th document, one of the two repository samples. Even case indices: truncation, EXHAUSTIVE per document (48 chunks of 256 offsets cover every byte offset 0..len of the document, each truncated document is loaded; the undamaged document is loaded too). Odd case indices: 16 damaged variants of a document by deletion of a start tag / end tag / whole element / attribute or its closing quote, 1-3 byte substitutions or insertions from {<,>,quote,&,NUL,FF,/,=,space,apostrophe}, oversized / malformed numbers, invalid UTF-8, BOM / CDATA / unknown entities / DOCTYPE, duplicated regions; 1/8 together with an undamaged file; plus fifteen fixed probe documents with degenerate markup ('<!-->', '<!--->', empty CDATA / DOCTYPE / '<!>' / '<?>', also directly behind a PDU / FRAME / CODING element and inside every text-valued element) loaded on every run, a damage operator that inserts such markup at every tag boundary, plus (1 in 997) nonexistent path, empty path, a directory, an empty file, no paths, NUL in the path. distinct = (damage operator, nesting context of the damage point: top / in PDU / in FRAME / in instance / in signal or coding / in tag / outside root, result class); all non-trivial",
             &[
                 "bounded progress: at most 1000 end-of-file events per load (hook counter) and at most 10 s thread CPU time; wall-clock 300 s only as an inconclusive watchdog",
                 "documents are below 100 KiB and load in milliseconds",
